@@ -138,6 +138,16 @@ def gen_plan(seed, tier="quick", variant=None):
     for _ in range(rng.choice([0, 0, 1, 2])):
         ops.append({"on": rng.randint(0, 4), "delay": round(rng.choice([0.0, 0.0002, 0.002, 0.02]), 6), "op": "cancel",
                     "id": rng.randint(0, nsend - 1)})
+    if len([o for o in ops if o["op"] == "send"]) > 1 and random.Random(seed * 137 + 3).random() < 0.25:
+        # a result callback that cancels other sends (one issued before it, one after it)
+        r4 = random.Random(seed * 137 + 4)
+        ss = [o for o in ops if o["op"] == "send"]
+        for _ in range(r4.choice([1, 1, 2])):
+            a, b = r4.sample(ss, 2)
+            ops.append({"after_send": a["id"], "op": "cancel", "id": b["id"]})
+            if r4.random() < 0.5 and None not in a["msgs"] and None not in b["msgs"]:
+                b["topic"], b["key"] = a["topic"], a["key"]  # same partition when keyed: they share a payload
+                # (a null message is identified by its key alone, so keys are only shared between sends without one)
     if variant in ("faulty", "clean") and batch and random.Random(seed * 131 + 7).random() < 0.15:
         # late cancel of a send whose partition lookup is still going on (and will fail): its batch-mates must go out
         r2 = random.Random(seed * 131 + 8)
@@ -356,6 +366,7 @@ def _run(w, plan):
         if rec["name"] == "load_metadata_for_topics" and kind == "call":
             k = lookups["n"]
             lookups["n"] += 1
+            state.setdefault("lookup_seqs", []).append(rec["seq"])
             for o in on_lookup_ops.pop(k, ()):
                 sim.after(o["delay"], do_op, o)
         if rec["name"] != "send_produce_request":
@@ -389,10 +400,20 @@ def _run(w, plan):
         state["t0"] = sim.now
         sim.record("producer_created")
 
+    after_send_ops = {}
+    for o in plan["ops"]:
+        if "after_send" in o:
+            after_send_ops.setdefault(o["after_send"], []).append(o)
+
     def on_fire(wd):
-        s = sends[int(wd.name.split("#")[1])]
+        sid_ = int(wd.name.split("#")[1])
+        s = sends[sid_]
         s["fire_seq"] = wd.seq
         s["fire_t"] = wd.t
+        # the application reacting to one result from inside its callback (e.g. giving up on the sends that followed it)
+        for o in after_send_ops.pop(sid_, ()):
+            res.probe("op_from_inside_a_result_callback")
+            do_op(o)
 
     def do_op(o):
         kind = o["op"]
@@ -682,7 +703,10 @@ def _run(w, plan):
         # dispatched before the cancel?  = some produce call issued before cancel carried it
         dispatched_before = any(c["seq"] < s["cancel_seq"] and any(_contains(lst, s["kvs"]) >= 0 for tp, lst in c["kvs"].items()
                                                                    if tp[0] == s["topic"]) for c in produce_calls)
-        if not dispatched_before and not _dispatch_in_progress(produce_calls, s, sends, order):
+        # (the producer looks partitions up only while dispatching a batch: a lookup issued after this send was queued and
+        # before its cancel means a batch - maybe the one holding it - was already on its way)
+        looking_up = any(s["seq"] < q < s["cancel_seq"] for q in state.get("lookup_seqs", ()))
+        if not dispatched_before and not looking_up and not _dispatch_in_progress(produce_calls, s, sends, order):
             # never transmitted
             for t, cid, hdr, body, kvs in produce_written:
                 for tp, lst in kvs.items():
@@ -722,6 +746,9 @@ def _run(w, plan):
             res.probe("stop_with_batch_in_flight")
         if state["timers_at_stop"]:
             res.probe("stop_while_waiting_to_retry")
+
+    # ---- C18: the partitioner objects driven directly with a seeded history of partition lists ----
+    _check_partitioners_direct(res, sim.rng("partitioners-direct"), apart)
 
     # ---- C19 strict model + C18 round robin (fault-free warmed variant only) ----
     lookups = [c for c in obs.calls if c["name"] == "load_metadata_for_topics" and c["args"] and c["args"][0] in topics_parts]
@@ -866,6 +893,42 @@ def _dispatch_in_progress(produce_calls, s, sends, order):
     return False
 
 
+def _check_partitioners_direct(res, rng, apart):
+    """A changed list restarts a fair cycle over the new list - whether the caller hands over a new list object each
+    time (as KafkaClient's metadata merge does) or keeps one list and changes it in place."""
+    saved = apart.RoundRobinPartitioner.randomStart
+    try:
+        for random_start in (False, True):
+            apart.RoundRobinPartitioner.randomStart = random_start
+            lst = sorted(rng.sample(range(0, 12), rng.randint(1, 5)))
+            same_object = rng.random() < 0.5
+            p = apart.RoundRobinPartitioner("direct", lst if same_object else list(lst))
+            for _phase in range(rng.randint(2, 4)):
+                k = rng.randint(1, 3)
+                picks = [p.partition(None, lst if same_object else list(lst)) for _ in range(k * len(lst))]
+                res.oblige("C18")
+                if any(x not in lst for x in picks):
+                    res.violate("C18", "C18:round-robin-out-of-range:direct", "selected %r, supplied list %r (%s)" % (
+                        [x for x in picks if x not in lst][:3], lst, "same list object changed in place" if same_object else "new list objects"))
+                    break
+                if sorted(picks) != sorted(lst * k):
+                    res.violate("C18", "C18:round-robin-window-unfair:direct", "%d selections over %r: %r (%s)" % (
+                        len(picks), lst, picks, "same list object changed in place" if same_object else "new list objects"))
+                    break
+                if not random_start and _phase == 0 and picks[:len(lst)] != lst:
+                    res.violate("C18", "C18:round-robin-fixed-start:direct", "first cycle %r over %r" % (picks[:len(lst)], lst))
+                    break
+                # the topic gains or loses a partition
+                if len(lst) > 1 and rng.random() < 0.4:
+                    del lst[rng.randrange(len(lst))]
+                else:
+                    lst.append(lst[-1] + rng.randint(1, 3))
+                if not same_object:
+                    lst = list(lst)
+    finally:
+        apart.RoundRobinPartitioner.randomStart = saved
+
+
 def _check_batch_model(w, plan, res, sends, order, produce_calls, state):
     """Lock-step reference model of the batching queue over the recorded log (fault-free warmed variant)."""
     pc = plan["cfg"]["producer"]
@@ -907,10 +970,30 @@ def _check_batch_model(w, plan, res, sends, order, produce_calls, state):
         ids_of_call[c["seq"]] = frozenset(ids)
 
     stop_seq = state.get("stop_seq")
+    resolved = [False]  # a batch has just resolved: its results are being delivered, the next dispatch decision follows them
+
+    def settle():
+        if resolved[0]:
+            resolved[0] = False
+            if met():
+                take("threshold-met-when-batch-resolved")
+
     for i, e in enumerate(sim.log):
         if stop_seq is not None and i >= stop_seq:
             break
         kind = e[2]
+        if resolved[0]:
+            if kind == "fire":
+                continue
+            if kind == "op" and e[3] == "cancel" and i in by_cancelseq:
+                # a result callback cancelled a queued send: that happens before the producer looks at its queue again
+                s = by_cancelseq[i]
+                if s in queue:
+                    queue.remove(s)
+                    cnt[0] -= s["count"]
+                    cnt[1] -= s["bytes"]
+                continue
+            settle()
         if kind == "op" and e[3] == "send" and i in by_sendseq:
             pending_check(i)
             s = by_sendseq[i]
@@ -948,8 +1031,8 @@ def _check_batch_model(w, plan, res, sends, order, produce_calls, state):
             c = done_by_seq.get(i + 1) or done_by_seq.get(i)
             pending_check(i)
             inflight[0] = False
-            if met():
-                take("threshold-met-when-batch-resolved")
+            resolved[0] = True
+    settle()
     if stop_seq is None:
         pending_check(len(sim.log))
     # C18 round robin fairness: selections per topic in issue order under an unchanged partition list
